@@ -3,6 +3,7 @@ Layer 4 of the invariants of the protocol core: the ghost history (`HInv`), and 
 `Order` predicate and commit-before-apply as invariants of `CReach`.
 -/
 import OnosVerif.Proofs.V3Hist
+import OnosVerif.Proofs.V3Inv5
 namespace OnosVerif.V3
 
 structure HInv (k : Core) : Prop where
@@ -387,31 +388,32 @@ theorem HInv.rollback {k : Core} {i : Nat} {t : TxC} (hc : CInv k) (hh : HInv k)
 /-- all invariant layers, with the TLA+ `Order` history predicate and commit-before-apply -/
 structure FullInv (k : Core) : Prop where
   inv : Inv k
+  f : FInv k
   h : HInv k
   order : OrderHist k.hist
   cba : CommitBeforeApplyHist k.hist
 
 theorem FullInv.step {k k' : Core} (h : FullInv k) (hs : CStep k k') : FullInv k' := by
   cases hs with
-  | append => exact ⟨h.inv.step (.append k), h.h.append, h.order, h.cba⟩
+  | append => exact ⟨h.inv.step (.append k), FInv.append h.inv.c h.f, h.h.append, h.order, h.cba⟩
   | rollback i t ht hc =>
-    refine ⟨h.inv.step (.rollback k i t ht hc), HInv.rollback h.inv.c h.h ht hc, ?_, ?_⟩
+    refine ⟨h.inv.step (.rollback k i t ht hc), FInv.rollback h.inv.c h.inv.o h.f ht hc, HInv.rollback h.inv.c h.h ht hc, ?_, ?_⟩
     · simpa using h.order
     · simpa using h.cba
   | first i t a rest ht he =>
     have hu := he.upd1 ht
-    refine ⟨h.inv.step (.first k i t a rest ht he), HInv.first h.inv.c h.inv.o h.h ht he, ?_, ?_⟩
+    refine ⟨h.inv.step (.first k i t a rest ht he), FInv.first h.inv.c h.inv.o h.f ht he, HInv.first h.inv.c h.inv.o h.h ht he, ?_, ?_⟩
     · rw [hu.hist]; exact HInv.first_order h.inv.c h.inv.o h.h h.order ht he
     · rw [hu.hist]; exact HInv.first_cba h.inv.c h.inv.o h.h h.cba ht he
   | both i t a b ht he =>
     have hu := he.upd2 ht
-    refine ⟨h.inv.step (.both k i t a b ht he), HInv.both h.inv.c h.inv.o h.h ht he, ?_, ?_⟩
+    refine ⟨h.inv.step (.both k i t a b ht he), FInv.both h.inv.c h.inv.o h.f ht he, HInv.both h.inv.c h.inv.o h.h ht he, ?_, ?_⟩
     · rw [hu.hist]; exact HInv.both_order h.inv.c h.inv.o h.h h.order ht he
     · rw [hu.hist]; exact HInv.both_cba h.inv.c h.inv.o h.h h.cba ht he
 
 theorem FullInv.reach {k : Core} (h : CReach k) : FullInv k := by
   induction h with
-  | init => exact ⟨⟨CInv.init, OInv.init⟩, HInv.init, OrderHist.nil, CommitBeforeApplyHist.nil⟩
+  | init => exact ⟨⟨CInv.init, OInv.init⟩, FInv.init, HInv.init, OrderHist.nil, CommitBeforeApplyHist.nil⟩
   | step k k' _ hs ih => exact ih.step hs
 
 end OnosVerif.V3
